@@ -210,3 +210,10 @@ package config
 //@ func Method.Field
 //@   props C05 C12
 //@   assigns map(m.Fields)
+
+// C15: the package of an output file is the directory of that file, taken relative to the declaring file's
+// package path (an absolute output path is first made relative to the directory of the declaring file)
+//@ func resolvePackage
+//@   props C15
+//@   ensures !filepath.IsAbs(targetFile) ==> err == nil && result == filepath.Dir(filepath.Join(sourcePackage, targetFile))
+//@   ensures filepath.IsAbs(targetFile) && err == nil ==> result == filepath.Dir(filepath.Join(sourcePackage, fst(filepath.Rel(filepath.Dir(sourceFileName), targetFile))))
